@@ -206,7 +206,14 @@ func c20(c *orch.Ctx) (*report.Result, error) {
 		if p.ExtraFiles == nil {
 			p.ExtraFiles = map[string]string{}
 		}
-		switch r.Intn(3) {
+		switch r.Intn(4) {
+		case 3: // glob expressions that match nothing, in front of and between the real ones
+			gl := []string{"./no-such-dir/*.go"}
+			for _, g := range p.Config.Globs {
+				gl = append(gl, g, "./"+strings.TrimPrefix(filepath.Dir(g), "./")+"/nomatch_*.go")
+			}
+			p.Config.Globs = gl
+			p.SetFeature("globs-matching-nothing")
 		case 0: // unmatched file inside a matched package: globs name the generated files explicitly
 			var globs []string
 			for _, ctl := range p.Controllers {
@@ -394,6 +401,32 @@ func c20(c *orch.Ctx) (*report.Result, error) {
 			clean := func(s string) string { return filepath.Clean(s) }
 			if clean(fcr) != clean(p.Config.RoutesOut) && clean(fcr) != clean(p.Config.SpecOut) {
 				res.AddViolation("unexpected-file-written", nil, fmt.Sprintf("%s the run also created/modified %s", label, fcr), csj)
+			}
+		}
+		// every glob-matched controller contributes: its name in the routes file, its documented methods in the spec
+		opIds := map[string]bool{}
+		for _, op := range doc.Operations() {
+			opIds[oapi.Str(op.Raw["operationId"])] = true
+		}
+		for ci := range p.Controllers {
+			cc := &p.Controllers[ci]
+			if cc.Decoy {
+				continue
+			}
+			served := false
+			for mi := range cc.Methods {
+				m := &cc.Methods[mi]
+				if !m.IsEndpoint() {
+					continue
+				}
+				served = true
+				if !m.Hidden && !opIds[m.Name] {
+					res.AddViolation("globbed-controller-missing-from-spec", map[string]string{"globs_matching_nothing": fmt.Sprint(p.HasFeature("globs-matching-nothing"))}, fmt.Sprintf("%s method %s.%s lives in a glob-matched file but no operation %s is documented", label, cc.Name, m.Name, m.Name), csj)
+					break
+				}
+			}
+			if served && !strings.Contains(string(src), cc.Name) {
+				res.AddViolation("globbed-controller-missing-from-routes", map[string]string{"globs_matching_nothing": fmt.Sprint(p.HasFeature("globs-matching-nothing"))}, fmt.Sprintf("%s controller %s lives in a glob-matched file but the routes file never mentions it", label, cc.Name), csj)
 			}
 		}
 		// only glob-matched files contribute controllers
